@@ -307,7 +307,7 @@ static void walk (const char *when) {
   }
   if (nd != pending_destructed) fail_hist ("C08:destruct-list-count-differs", "%s: obj_list_destruct holds %d objects, %d were destructed since the last cleanup", when, nd, pending_destructed);
   for (int i = 0; i < NOBJ; i++) if (OB[i] && (OB[i]->flags & O_DESTRUCTED) && M[i].st == 2) {
-    int f = 0; for (object_t *o = obj_list_destruct; o; o = o->next_all) if (o == OB[i]) f++;
+    int f = 0, g = 0; for (object_t *o = obj_list_destruct; o && g < MAXO; o = o->next_all, g++) if (o == OB[i]) f++;
     if (f != 1) fail_hist ("C08:destructed-object-not-in-destruct-list", "%s: destructed O%d is %d times in obj_list_destruct", when, i, f);
   }
   /* living hash and heart-beat list hold no destructed object */
